@@ -33,28 +33,40 @@ def gen(seed, V, tier, index, bias=None):
         n += 1
     evs = []
     st = strata(V)
+    bs = E.c09_burst_strata()
     if index < len(st):
         first = st[index]
         if isinstance(first, tuple):
             first = E.gen_calc(rng, V, which=first[1])
         evs.append(first)
+    elif index < len(st) + len(bs):
+        evs += [list(e) for e in bs[index - len(st)]]
+        n = max(n, len(evs))
+    pool = []        # compound strings of this run (reused by later calculator events)
     pred = M.Predict()
     for e in evs:
         pred.feed(e)
     seen = bias.get("pairs") if bias else None
     greybox = 0
     while len(evs) < n:
-        e = E.gen_c09_event(rng, V, cfg)
+        e = E.gen_c09_event(rng, V, cfg, pool)
         if seen is not None and rng.random() < 0.5:
             # greybox bias: among a few candidates prefer one whose (predicted loader state,
             # event group) pair no earlier generation has executed
             sk = state_key(pred.pub_pending)
-            cands = [e] + [E.gen_c09_event(rng, V, {"families": E.C09_FAMILIES}) for _ in range(3)]
+            cands = [e] + [E.gen_c09_event(rng, V, {"families": E.C09_FAMILIES}, pool) for _ in range(3)]
             for c in cands:
                 if (sk + "|" + event_group(c)) not in seen:
                     e = c
                     greybox += 1
                     break
+        if "calculator" in fams and rng.random() < 0.12:
+            # a burst: one compound revisited through one calculator family with other arguments
+            burst = E.gen_burst(rng, V, pool=pool)
+            for b in burst[:-1]:
+                evs.append(b)
+                pred.feed(b)
+            e = burst[-1]
         evs.append(e)
         pred.feed(e)
         # retry fault: re-issue the same operation straight away
